@@ -53,7 +53,170 @@ fn precision(m: &Mon, r: &mut Rng) -> usize {
     }
 }
 
+/// A short history over a pool of live floats of different precisions: every step applies one operator form (by value,
+/// by reference, in place, with an integer operand, shifts, precision changes, clone_from) to values that earlier steps
+/// left behind, and the result is judged against the exact rational of the *stored* operands by the same contract, at
+/// the precision the operator is documented to use (the larger of the two). Operands that carry more digits than that
+/// precision are outside the property and are only required not to panic.
+fn history<Rm: ModeTag, const B: Word>(m: &mut Mon, r: &mut Rng) {
+    let base = B as u32;
+    let npool = 5;
+    let fresh = |r: &mut Rng| -> FBig<Rm, B> {
+        let p = match r.below(6) {
+            0 => 1,
+            1 => 2 + r.usize(3),
+            _ => 1 + r.usize(45),
+        };
+        let d = 1 + r.usize(p);
+        let s = BigInt::from(sig(r, base, d)) * if r.bool() { -1 } else { 1 };
+        let s = if r.chance(1, 12) { BigInt::from(0) } else { s };
+        FBig::<Rm, B>::from_parts(ibig_of_int(&s), r.range(-30, 30) as isize).with_precision(p).value()
+    };
+    let mut pool: Vec<FBig<Rm, B>> = (0..npool).map(|_| fresh(r)).collect();
+    let mut log: Vec<String> = vec![];
+    let mut failure: Option<mon::Fail> = None;
+    let steps = 24;
+    let mut judged = 0u64;
+    for step in 0..steps {
+        let (i, j, k) = (r.usize(npool), r.usize(npool), r.usize(npool));
+        let (a, b) = (pool[j].clone(), pool[k].clone());
+        let (qa, qb) = (q_of_repr(a.repr()), q_of_repr(b.repr()));
+        let (pa, pb) = (a.precision(), b.precision());
+        let pmax = pa.max(pb);
+        let n: i64 = r.range(-99, 99);
+        let nq = BigRational::from_integer(BigInt::from(n));
+        let sh = r.range(-9, 9) as isize;
+        let op = r.below(20);
+        let show = |f: &FBig<Rm, B>| format!("{}*{}^{}@{}", f.repr().significand(), base, f.repr().exponent(), f.precision());
+        // (name, exact value, expected precision, result); None = skipped
+        let res: Result<Option<(&'static str, BigRational, usize, FBig<Rm, B>)>, String> = catch(|| {
+            Some(match op {
+                0 => ("add", &qa + &qb, pmax, &a + &b),
+                1 => ("add_val", &qa + &qb, pmax, a.clone() + b.clone()),
+                2 => ("sub", &qa - &qb, pmax, &a - b.clone()),
+                3 => ("mul", &qa * &qb, pmax, a.clone() * &b),
+                4 => {
+                    if qb.is_zero() {
+                        return None;
+                    }
+                    ("div", &qa / &qb, pmax, &a / &b)
+                }
+                5 => {
+                    let mut t = a.clone();
+                    t += &b;
+                    ("add_assign", &qa + &qb, pmax, t)
+                }
+                6 => {
+                    let mut t = a.clone();
+                    t -= b.clone();
+                    ("sub_assign", &qa - &qb, pmax, t)
+                }
+                7 => {
+                    let mut t = a.clone();
+                    t *= &b;
+                    ("mul_assign", &qa * &qb, pmax, t)
+                }
+                8 => {
+                    if qb.is_zero() {
+                        return None;
+                    }
+                    let mut t = a.clone();
+                    t /= &b;
+                    ("div_assign", &qa / &qb, pmax, t)
+                }
+                9 => ("neg", -&qa, pa, -a.clone()),
+                10 => {
+                    let mut t = a.clone();
+                    if r.bool() {
+                        t <<= sh;
+                    } else {
+                        t >>= -sh;
+                    }
+                    ("shift_assign", &qa * pow_q(base, sh as i64), pa, t)
+                }
+                11 => ("shift", &qa * pow_q(base, sh as i64), pa, if r.bool() { a.clone() << sh } else { a.clone() >> (-sh) }),
+                12 => {
+                    let np = 1 + r.usize(50);
+                    ("with_precision", qa.clone(), np, a.clone().with_precision(np).value())
+                }
+                13 => {
+                    let mut t = b.clone();
+                    t.clone_from(&a);
+                    ("clone_from", qa.clone(), pa, t)
+                }
+                14 => ("sqr", &qa * &qa, pa, a.sqr()),
+                15 => {
+                    let mut t = a.clone();
+                    t += n;
+                    ("add_assign_int", &qa + &nq, pa.max(digits(&BigInt::from(n), base)), t)
+                }
+                16 => ("int_sub", &nq - &qa, pa.max(digits(&BigInt::from(n), base)), n - &a),
+                17 => {
+                    let mut t = a.clone();
+                    t *= n;
+                    ("mul_assign_int", &qa * &nq, pa.max(digits(&BigInt::from(n), base)), t)
+                }
+                18 => {
+                    if n == 0 {
+                        return None;
+                    }
+                    ("div_int", &qa / &nq, pa.max(digits(&BigInt::from(n), base)), &a / n)
+                }
+                _ => ("sub_self", BigRational::zero(), pa, &a - &a),
+            })
+        });
+        let (name, x, p, v) = match res {
+            Ok(None) => continue,
+            Ok(Some(t)) => t,
+            Err(pn) => {
+                failure = Some(mon::Fail { kind: "unexpected_panic".into(), detail: format!("step {} op#{} on a={} b={} n={} shift={}: {} | last ops: {:?}", step, op, show(&a), show(&b), n, sh, pn, &log[log.len().saturating_sub(6)..]), finding: None });
+                break;
+            }
+        };
+        m.note(&format!("hop:{}", name));
+        log.push(format!("{}: [{}] = {}([{}]={}, [{}]={}, n={}, sh={}) -> {}", step, i, name, j, show(&a), k, show(&b), n, sh, show(&v)));
+        let two_operands = matches!(op, 0..=8);
+        let in_scope = digits(&int_of(a.repr().significand()), base) <= p && (!two_operands || digits(&int_of(b.repr().significand()), base) <= p);
+        let check: R = (|| {
+            if v.repr().is_infinite() {
+                return fail("infinite", format!("{}: finite operation returned an infinity", name));
+            }
+            // digits of an integer operand count as its precision; zero operands carry none
+            let p_ok = v.precision() == p || (matches!(op, 15..=18) && n == 0 && v.precision() == pa);
+            if !p_ok {
+                return fail("precision", format!("{}: result precision {} but the operands call for {}", name, v.precision(), p));
+            }
+            if !in_scope {
+                return Ok(());
+            }
+            let rq = q_of_repr(v.repr());
+            let rd = digits(&int_of(v.repr().significand()), base);
+            let flag = if rq == x { Flag::Exact } else if rq > x { Flag::AddOne } else { Flag::SubOne };
+            check_contract(&x, &rq, flag, rd, base, v.precision(), Rm::M).or_else(|(kd, dd)| fail(kd, format!("{}: {}", name, dd)))
+        })();
+        if let Err(mut f) = check {
+            f.detail = format!("{} | step {} | last ops: {:?}", f.detail, step, &log[log.len().saturating_sub(6)..]);
+            failure = Some(f);
+            break;
+        }
+        if in_scope {
+            judged += 1;
+        }
+        // bound the exponents (the oracle is exact) and keep the pool inside the property's domain
+        pool[i] = if v.repr().exponent().unsigned_abs() > 400 || v.precision() == 0 { fresh(r) } else { v };
+    }
+    m.note_n("history_steps_judged", judged);
+    let d = || format!("float history mode={} base={} last ops: {:?}", Rm::M.name(), base, &log[log.len().saturating_sub(8)..]);
+    m.check("history", &format!("{}/b{}", Rm::M.name(), base), Some(dvh::rng::hash_str(&log.join(";"))), &d, || match failure {
+        Some(f) => Err(f),
+        None => Ok(()),
+    });
+}
+
 fn run<Rm: ModeTag, const B: Word>(m: &mut Mon, r: &mut Rng) {
+    if r.chance(1, 16) {
+        return history::<Rm, B>(m, r);
+    }
     let base = B as u32;
     let p = precision(m, r);
     let ctx = Context::<Rm>::new(p);
